@@ -65,7 +65,7 @@ Reach(S) == ReachFrom(S, {S[1].name})
 Fresh(S, n) == n \notin AllNames(S) /\ n \notin PreludeNames
 \* well-formed: the first rule is a type rule and every name is a rule, a parameter in scope, a prelude name or a socket
 WF(S, socks) == Len(S) > 0 /\ S[1].kind = "type" /\ S[1].params = <<>>
-                /\ \A i \in 1..Len(S) : RuleRefs(S[i]) \subseteq (Defined(S) \cup PreludeNames \cup socks)
+                /\ (\A i \in 1..Len(S) : RuleRefs(S[i]) \subseteq (Defined(S) \cup PreludeNames \cup socks))
                 /\ \A i, j \in 1..Len(S) : S[i].name = S[j].name => (S[i].kind = S[j].kind /\ S[i].params = S[j].params)
 
 \* ---- Paren
